@@ -1,5 +1,5 @@
 #!/bin/bash
-# Development aid: confirm a seeded change delivered by a sub-agent in /tmp/seed/<ID> and file it under /verif/seeded/<ID>/.
+# Development aid: confirm a seeded change delivered by a sub-agent in ${SEEDDIR:-/tmp/seed}/<ID> and file it under /verif/seeded/<ID>/.
 # usage: lib/seedconfirm.sh <ID> <property> "<test packages>" "<demo run regex>" <demo pkg dir>
 set -u
 ID=$1; PROP=$2; PKGS=$3; RUN=$4; DEMODIR=$5
@@ -7,9 +7,9 @@ export GOFLAGS=-mod=mod GOPROXY=off GOSUMDB=off GOTOOLCHAIN=local
 WT=/tmp/seedconfirm-$ID
 rm -rf $WT; git -C /repo worktree prune; git -C /repo worktree add -q --detach $WT HEAD || exit 2
 cd $WT
-cp /tmp/seed/${ID}_demo_test.go $DEMODIR/seed_${ID,,}_test.go
+cp ${SEEDDIR:-/tmp/seed}/${ID}_demo_test.go $DEMODIR/seed_${ID,,}_test.go
 echo "== demo on original code (must pass)"; go test ./$DEMODIR/ -run "$RUN" -count=1 2>&1 | tail -3; R0=${PIPESTATUS[0]}
-git apply /tmp/seed/$ID.patch || { echo "patch does not apply"; exit 2; }
+git apply ${SEEDDIR:-/tmp/seed}/$ID.patch || { echo "patch does not apply"; exit 2; }
 echo "== build + existing tests with the change (must pass)"
 mv $DEMODIR/seed_${ID,,}_test.go /tmp/seedconfirm-$ID.demo
 go build ./... && go test $PKGS -count=1 2>&1 | tail -8; R1=${PIPESTATUS[0]}
